@@ -184,3 +184,44 @@ Proof.
   intros Hr. pose proof (reachable_all T HA _ _ _ _ _ Hr) as HI.
   apply fut_no_panic; [apply (ac_own _ HA)|apply (ia_own _ HI)|apply (ia_fut _ HI)].
 Qed.
+
+(* C07: the result of a scheduler future is delivered (Resolve f _ in the ghost log) at most once *)
+Theorem resolve_at_most_once T (HA : all_cond T) scripts npool nev tr s f :
+  run T (init scripts npool nev) tr = Some s -> nres f s.(log) <= 1.
+Proof.
+  intros Hr. pose proof (reachable_all T HA _ _ _ _ _ Hr) as HI. pose proof (if_one _ (ia_fut _ HI) f). lia.
+Qed.
+
+(* reading of [wbn]: every started operation has finished, except the open one *)
+Lemma wbn_finished l : forall cur, wbn l = Some cur -> forall o, GStart o ∈ l -> GFinish o ∈ l \/ cur = Some o.
+Proof.
+  induction l as [|ev l IH]; intros cur H o Hin; [by apply elem_of_nil in Hin|].
+  cbn in H. destruct (wbn l) as [c0|] eqn:E; cbn in H; [|done]. specialize (IH c0 eq_refl).
+  apply elem_of_cons in Hin as [Heq|Hin].
+  - subst ev. cbn in H. destruct c0; [done|]. injection H as <-. by right.
+  - destruct (IH o Hin) as [Hf|Hc].
+    + left. by right.
+    + subst c0. destruct ev; cbn in H; try (injection H as <-; by right); try done.
+      destruct (decide (o0 = o)) as [->|]; [|done]. left. left.
+Qed.
+
+(* detached / dropped / never-polled futures included: in a terminal state with all events fired and a pool runner, every
+   operation that was scheduled has started and finished, in the order of scheduling *)
+Theorem terminal_all_ran T (HA : all_cond T) scripts npool nev tr s :
+  npool >= 1 -> run T (init scripts npool nev) tr = Some s -> terminal T s -> all_fired s ->
+  starts s.(log) = pushes s.(log) /\ forall o, GPush o ∈ s.(log) -> GStart o ∈ s.(log) /\ GFinish o ∈ s.(log).
+Proof.
+  intros Hn Hr Ht Hf. destruct (C06_terminal T HA _ _ _ _ _ Hn Hr Ht Hf) as (Hq & Hj & Hh).
+  pose proof (reachable_all T HA _ _ _ _ _ Hr) as HI. pose proof (ia_jobs _ HI) as HJ.
+  pose proof (ij_fifo _ HJ) as H1. unfold pend in H1. rewrite Hh, Hj in H1. cbn in H1. rewrite app_nil_r in H1.
+  pose proof (ij_log _ HJ) as H2. unfold inprog in H2. rewrite Hh, Hj in H2.
+  split; [done|]. intros o Ho.
+  assert (Hs : GStart o ∈ log s).
+  { assert (o ∈ pushes (log s)).
+    { clear -Ho. induction (log s) as [|ev l IH]; [by apply elem_of_nil in Ho|]. cbn. apply elem_of_app.
+      apply elem_of_cons in Ho as [<-|Ho]; [right; left|left; by apply IH]. }
+    rewrite H1 in H. clear -H. induction (log s) as [|ev l IH]; [by apply elem_of_nil in H|]. cbn in H.
+    apply elem_of_app in H as [H|H]; [right; by apply IH|]. destruct ev; try (by apply elem_of_nil in H).
+    apply elem_of_list_singleton in H as ->. left. }
+  split; [done|]. by destruct (wbn_finished _ _ H2 o Hs).
+Qed.
